@@ -196,6 +196,8 @@ OPS = {
     "serialized_a": lambda: serialized(owner=A)(a_serialized),
     "serialized_a_alias": lambda: serialized("aliased_method", owner=A)(a_serialized),
     "discriminator_base": lambda: discriminator("kind")(Base),
+    "type_name_sub1": lambda: type_name("S1")(Sub1),
+    "type_name_sub1_none": lambda: type_name(None)(Sub1),
     "serializer_leaf_as_tree": lambda: serializer(leaf_to_tree),
     "deserializer_leaf_from_tree": lambda: deserializer(leaf_from_tree),
     "reset_serializer_leaf": lambda: reset_serializer(Leaf),
@@ -238,6 +240,9 @@ OBS = {
     "de_list_a": lambda: deserialize(List[A], [{"some_field": 1}, {"some_field": "x"}]),
     "de_base": lambda: deserialize(Base, {"kind": "Sub1", "x": 1}),
     "schema_list_a": lambda: deserialization_schema(List[A], all_refs=True),
+    "de_disc_union": lambda: deserialize(Annotated[Union[Sub1, Sub2], discriminator("type")], {"type": "Sub1", "x": 1}),
+    "de_disc_union_s1": lambda: deserialize(Annotated[Union[Sub1, Sub2], discriminator("type")], {"type": "S1", "x": 1}),
+    "ser_disc_union": lambda: serialize(Annotated[Union[Sub1, Sub2], discriminator("type")], Sub1(0, 1)),
     "ser_tree": lambda: serialize(Tree, Tree([Leaf(1), Leaf(2)])),
     "de_tree": lambda: deserialize(Tree, {"leaves": [{"leaves": []}, {"leaves": [{"leaves": []}]}]}),
     "de_tree_flat": lambda: deserialize(Tree, {"leaves": [{"x": 1}]}),
@@ -414,7 +419,7 @@ def enumerate_cases(tier):
         # quick tier: every ordered pair of operations that configure the same pool type (an observation made after the
         # first can be made stale by the second), and a deterministic slice of the other pairs
         done = set()
-        for g in ("A", "W", "N", "Leaf"):
+        for g in ("A", "W", "N", "Leaf", "Sub"):
             grp = [x for x in names if op_group(x) == g]
             for a, b_ in itertools.permutations(grp, 2):
                 done.add((a, b_))
@@ -429,6 +434,8 @@ def op_group(name: str) -> str:
         return "Leaf"
     if name.endswith("_w") or name in ("deserializer_int", "deserializer_str", "serializer_int", "serializer_str"):
         return "W"
+    if "sub1" in name or name == "discriminator_base":
+        return "Sub"
     if name.endswith("_n") or "_n_" in name:
         return "N"
     if name.endswith("_a") or "_a_" in name:
